@@ -163,7 +163,9 @@ func (s *LinearState) Add(ctx *Context, id string, x Map) (string, error) {
 		return id, err
 	}
 
-	bs, err := json.Marshal(&x)
+	// Persist the prepared fact (with its absolute 'expires'), not
+	// the given map.  Otherwise a 'ttl' would be lost on reload.
+	bs, err := json.Marshal(&m)
 	if err != nil {
 		return id, err
 	}
